@@ -24,18 +24,36 @@ def unit_GenPolicy():
     txt += ("\n(* conversion_api._resolve_strict_optimizer_failures (shape checked against the AST) *)\n"
             "Definition resolve_strict (strict_arg : option bool) (env_value : option string) : option bool :=\n"
             " match strict_arg with Some b => Some b | None => env_flag_value_enabled env_value end.\n")
-    # _optimize_graph_with_failure_policy: try: optimize_graph(model) except Exception: if resolve(...): raise; log
+    # _optimize_graph_with_failure_policy, two accepted shapes (anything else fails closed):
+    #  (old)  try: optimize_graph(model) except Exception: if resolve(...): raise; log         -> returns the completed PREFIX
+    #  (new)  strict = resolve(...); backup = None; if not strict: try: backup = model.clone() ...;
+    #         try: optimize_graph(model) except Exception: if strict: raise; log; if backup is not None: <restore graph+functions>
+    #                                                                                              -> returns the INPUT model
     fp = py2coq.find_functions(tree).get("_optimize_graph_with_failure_policy")
     if fp is None:
         raise py2coq.Unsupported("missing _optimize_graph_with_failure_policy")
     stmts = [s for s in fp.body if not (isinstance(s, ast.Expr) and isinstance(s.value, ast.Constant))]
-    ok = (len(stmts) == 1 and isinstance(stmts[0], ast.Try) and ast.unparse(stmts[0].body[0]) == "optimize_graph(model)"
-          and len(stmts[0].handlers) == 1 and ast.unparse(stmts[0].handlers[0].type) == "Exception"
-          and ast.unparse(stmts[0].handlers[0].body[0]).startswith("if _resolve_strict_optimizer_failures(strict_optimizer_failures):\n    raise")
-          and not stmts[0].finalbody and not stmts[0].orelse)
-    if not ok:
+    old_ok = (len(stmts) == 1 and isinstance(stmts[0], ast.Try) and ast.unparse(stmts[0].body[0]) == "optimize_graph(model)"
+              and len(stmts[0].handlers) == 1 and ast.unparse(stmts[0].handlers[0].type) == "Exception"
+              and ast.unparse(stmts[0].handlers[0].body[0]).startswith("if _resolve_strict_optimizer_failures(strict_optimizer_failures):\n    raise")
+              and not stmts[0].finalbody and not stmts[0].orelse)
+    new_ok = False
+    if len(stmts) == 4 and isinstance(stmts[3], ast.Try):
+        t = stmts[3]
+        h = t.handlers[0] if len(t.handlers) == 1 else None
+        new_ok = (ast.unparse(stmts[0]) == "strict = _resolve_strict_optimizer_failures(strict_optimizer_failures)"
+                  and ast.unparse(stmts[1]) in ("backup: Optional[ir.Model] = None", "backup = None")
+                  and ast.unparse(stmts[2]) == "if not strict:\n    try:\n        backup = model.clone()\n    except Exception:\n        backup = None"
+                  and [ast.unparse(x) for x in t.body] == ["optimize_graph(model)"] and not t.finalbody and not t.orelse
+                  and h is not None and ast.unparse(h.type) == "Exception"
+                  and [ast.unparse(x) for x in h.body] == [
+                      "if strict:\n    raise", "_log_nonfatal_stage_failure('optimize_graph', exc)",
+                      "if backup is not None:\n    model.graph = backup.graph\n    model.functions.clear()\n    model.functions.update(backup.functions)"])
+    if not (old_ok or new_ok):
         raise py2coq.Unsupported("_optimize_graph_with_failure_policy changed shape")
     txt += "\nDefinition failure_policy_shape_checked : bool := true.\n"
+    txt += ("(* on a non-fatal optimizer failure the code restores the un-optimised model (true) / keeps the partially optimised one (false) *)\n"
+            f"Definition failure_policy_restores_input : bool := {'true' if new_ok else 'false'}.\n")
     return py2coq.HEADER + txt
 
 
